@@ -62,6 +62,40 @@ let rec get_tree r : Value.tree =
   | _ -> Value.Leaf (scalar_of_tok t)
 let get_opt r f = let t = next r in if t = "none" then None else if t = "some" then Some (f r) else raise (Bad ("opt:" ^ t))
 
+let get_path r = get_list r get_key
+let get_kvs r = match get_tree r with Value.Dict kvs -> kvs | _ -> raise (Bad "kvs: dict expected")
+let get_tab r f =
+  let t = next r in
+  if t.[0] <> 'T' then raise (Bad ("tab:" ^ t)) else
+  let k = int_of_string (tail t 1) in
+  let rec go i acc = if i = 0 then List.rev acc else
+      let id = get_n r in let v = f r in go (i - 1) ((id, v) :: acc) in
+  go k []
+let get_sdict r : SDict.sdict =
+  let t = next r in
+  if t <> "SD" then raise (Bad ("sdict:" ^ t)) else
+  let data = get_kvs r in
+  let lc = get_tab r get_str in
+  let bc = get_tab r get_str in
+  let inc = get_tab r (fun r -> let a = get_str r in let b = get_str r in let c = get_str r in ((a, b), c)) in
+  let ex = get_tab r (fun r -> let a = get_str r in let b = get_str r in (a, b)) in
+  { SDict.sd_data = data; sd_lc = lc; sd_bc = bc; sd_inc = inc; sd_expr = ex }
+let get_other r = get_opt r get_sdict
+let get_sdop r : SDict.sdop =
+  match next r with
+  | "set" -> let k = get_key r in let v = get_tree r in SDict.OSet (k, v)
+  | "del" -> SDict.ODel (get_key r)
+  | "update" -> let m = get_kvs r in let o = get_other r in SDict.OUpdate (m, o)
+  | "or" -> let m = get_kvs r in let o = get_other r in SDict.OOr (m, o)
+  | "ror" -> SDict.ORor (get_kvs r)
+  | "pop" -> SDict.OPop (get_key r)
+  | "setdefault" -> let k = get_key r in let v = get_tree r in SDict.OSetdefault (k, v)
+  | "clear" -> SDict.OClear
+  | "copy" -> SDict.OCopy
+  | "ctor" -> SDict.OCtor
+  | "merge" -> let m = get_kvs r in let o = get_other r in SDict.OMerge (m, o)
+  | t -> raise (Bad ("sdop:" ^ t))
+
 (* ---- printer ------------------------------------------------------------------------------ *)
 let b = Buffer.create 65536
 let sp () = Buffer.add_char b ' '
@@ -93,6 +127,14 @@ let put_res f (x : 'a Value.res) =
   match x with Value.Ok a -> put "ok "; f a | Value.Raise e -> put "raise "; put (string_of_int (int_of_n e))
 let put_pair f g (x, y) = f x; sp (); g y
 
+let put_tab f l = put "T"; put (string_of_int (List.length l)); List.iter (fun (id, v) -> sp (); put_n id; sp (); f v) l
+let put_sdict (s : SDict.sdict) =
+  put "SD "; put_tree (Value.Dict s.SDict.sd_data); sp ();
+  put_tab put_str s.SDict.sd_lc; sp ();
+  put_tab put_str s.SDict.sd_bc; sp ();
+  put_tab (fun ((a, b), c) -> put_str a; sp (); put_str b; sp (); put_str c) s.SDict.sd_inc; sp ();
+  put_tab (fun (a, b) -> put_str a; sp (); put_str b) s.SDict.sd_expr
+
 (* ---- dispatch ----------------------------------------------------------------------------- *)
 let run_op (op : string) (r : rd) : unit =
   match op with
@@ -104,6 +146,16 @@ let run_op (op : string) (r : rd) : unit =
   | "format_key" -> put_str (Scalar.format_key (get_key r))
   | "py_float_ok" -> put_bool (Scalar.py_float_ok (get_str r))
   | "py_int_ok" -> put_bool (Scalar.py_int_ok (get_str r))
+  | "find_global_key" -> let q = get_str r in let t = get_tree r in put_opt (put_list put_key) (KeyPath.find_global_key q t)
+  | "set_global_key" -> let t = get_tree r in let p = get_path r in let v = get_tree r in
+                        put_res put_tree (KeyPath.set_global_key t p v)
+  | "key_exists" -> let t = get_tree r in let p = get_path r in put_bool (KeyPath.key_exists t p)
+  | "reduce_scope" -> let kvs = get_kvs r in let p = get_path r in put_tree (Value.Dict (KeyPath.reduce_scope kvs p))
+  | "order_tree" -> put_tree (KeyPath.order_tree (get_tree r))
+  | "get_path" -> let t = get_tree r in let p = get_path r in put_opt put_tree (KeyPath.get_path t p)
+  | "sd_trace" -> let s = get_sdict r in let ops = get_list r get_sdop in
+                  put_list (put_res put_sdict) (SDict.sd_trace s ops)
+  | "sd_order" -> put_sdict (SDict.sd_order (get_sdict r))
   | _ -> raise (Bad ("op:" ^ op))
 
 let () =
